@@ -418,14 +418,16 @@ def runner(pid, prop, tier, seed, scratch, replay=None):
     cases, expected = [], []
     if replay:
         doc = json.load(open(os.path.join(P.VERIF, replay) if not os.path.isabs(replay) else replay))
-        cases.append(dict(id="replay", ptr=4, schedule=[], files={"m.pyxis": doc["text"]}))
-        expected.append(sx.parse(doc["expected"])[0])
+        cases.append(dict(id="replay", ptr=4, schedule=[], files={"m.pyxis": doc["text"]}, parse_only=True))
+        expected.append(sx.parse(doc["expected"])[0] if doc.get("expected") else None)
         nsyn = 0
     else:
         for i in range(nmods):
             m = g_module(rng)
             text = render_module(rng, m)
-            cases.append(dict(id="c18-%d" % i, ptr=4, schedule=[], files={"m.pyxis": text}))
+            # the parser alone: the harness does not run the build on these (an index of 2^63 - 1 in a vftable whose
+            # signatures happen to resolve would ask for a table of that many slots)
+            cases.append(dict(id="c18-%d" % i, ptr=4, schedule=[], files={"m.pyxis": text}, parse_only=True))
             expected.append(normalise_backends(m))
     hres = P.run_harness(cases, scratch)
     seen = set()
@@ -434,7 +436,7 @@ def runner(pid, prop, tier, seed, scratch, replay=None):
         asts = sx.field(hres[c["id"]], "asts") or []
         text = c["files"]["m.pyxis"]
         if not asts:
-            out["failures"].append(dict(clause="C18.no_answer", detail=str(sx.field(hres[c["id"]], "verdict")), text=text))
+            out["failures"].append(dict(clause="C18.no_answer", detail=str(sx.field(hres[c["id"]], "verdict")), text=text, expected=sx.show(exp) if exp is not None else None))
             continue
         a = asts[0]
         if a[0] != "ast":
@@ -442,14 +444,14 @@ def runner(pid, prop, tier, seed, scratch, replay=None):
             out["failures"].append(dict(clause="C18.valid_module_rejected", detail=sx.show(a)[:300], text=text, expected=sx.show(exp)))
             continue
         dist["A:parsed"] += 1
-        if a[3] != exp:
+        if exp is not None and a[3] != exp:
             out["failures"].append(dict(clause="C18.roundtrip", detail=P.first_diff(a[3], exp) or "differs", text=text, expected=sx.show(exp)))
         h = props.sha_files(c["files"])
-        if h not in seen and len(sx.show(exp)) > 200:
+        if h not in seen and exp is not None and len(sx.show(exp)) > 200:
             seen.add(h)
             nontrivial += 1
         if replay:
-            print("replay:", "equal" if a[3] == exp else P.first_diff(a[3], exp))
+            print("replay:", "parsed (no expectation recorded)" if exp is None else "equal" if a[3] == exp else P.first_diff(a[3], exp))
     out["evaluations"] += len(cases)
     # ---- B: Coq parser vs real parser on types and attribute lists
     items = [("type", type_string(rng)) for _ in range(nsyn // 2)] + [("attrs", attrs_string(rng)) for _ in range(nsyn // 2)]
